@@ -89,8 +89,9 @@ void givc_message(const char *fmt, ...);
 #define g_return_val_if_reached(v) do { return (v); } while (0)
 #define g_new(t,n) ((t*)g_malloc(sizeof(t)*(n)))
 #define g_new0(t,n) ((t*)g_malloc0(sizeof(t)*(n)))
-#define g_slice_new(t) ((t*)g_malloc(sizeof(t)))
-#define g_slice_new0(t) ((t*)g_malloc0(sizeof(t)))
+void *givc_new_struct(const char *type_name);   /* givc: translated to a fresh zero-initialised struct object */
+#define g_slice_new(t) ((t*)givc_new_struct(#t))
+#define g_slice_new0(t) ((t*)givc_new_struct(#t))
 #define g_slice_free(t,p) g_free(p)
 #define g_newa(t,n) ((t*)__builtin_alloca(sizeof(t)*(n)))
 #define g_alloca(n) __builtin_alloca(n)
